@@ -232,7 +232,9 @@ func finishLogs(tc trkCase, lg *trkLog, handled, afterRan bool) string {
 		// unreachable — it still counts as run, like any failing hook
 		pre = append(pre, len(tc.pre))
 	}
-	if afterRan && !lg.postFail {
+	if afterRan {
+		// the built-in swarm interaction hook ends the post chain; it is not instrumented: whether it ran shows in the
+		// store dump that follows (since the repair D28 it runs whatever the post-hooks before it did)
 		post = append(post, len(tc.post))
 	}
 	return "prelog=" + logStr(pre) + " postlog=" + logStr(post)
